@@ -31,6 +31,7 @@ class Exec(ExprMixin, CallMixin):
         self.fuel_stack = []
         self.fuel_left = {}
         self.dry_running = set()
+        self.loop_envs = []
         self.force_fuel = 0
         self.unfolding = set()
         self.in_old = False
@@ -108,7 +109,7 @@ class Exec(ExprMixin, CallMixin):
     def run(self):
         c = self.c
         eng = self.eng
-        if c.kind == 'lemma':
+        if c.kind in ('lemma', 'client'):
             tree = ast.parse(c.body)
             fn = ast.FunctionDef(name=c.name, args=None, body=tree.body, decorator_list=[], lineno=1, col_offset=0)
             ast.fix_missing_locations(fn)
@@ -129,7 +130,7 @@ class Exec(ExprMixin, CallMixin):
         r_ = z3.Int(fresh_name('r'))
         st.assume(z3.ForAll([r_], z3.Select(st.h(eng.k_len()), r_) >= 0))
         ps = self.param_specs(c)
-        if c.kind != 'lemma':
+        if c.kind not in ('lemma', 'client'):
             real = [a.arg for a in self.fn.args.posonlyargs + self.fn.args.args + self.fn.args.kwonlyargs]
             for nm, _, _, _ in ps:
                 if nm not in real:
@@ -268,7 +269,8 @@ class Exec(ExprMixin, CallMixin):
         for m in mods:
             if self.mod_covers(m, key):
                 tmp = old.copy()
-                tmp.old = old
+                if tmp.old is None:
+                    tmp.old = old
                 conds.append(self.spec_eval(m.where, tmp, {'r': SV(T.Ref('$any'), r)}))
         return zor(conds)
 
@@ -897,6 +899,7 @@ class Exec(ExprMixin, CallMixin):
     def loop_frame_assume(self, st, pre, lc):
         """Objects outside the loop's modifies set keep their heap values (checked at the back edge)."""
         mods = lc.modifies if lc.modifies is not None else self.c.modifies
+        wstate = pre if lc.modifies is not None else st.old
         a_pre = pre.h(('alloc',))
         for key, val in list(st.heap.items()):
             if key[0] in ('alloc', 'g'):
@@ -905,12 +908,13 @@ class Exec(ExprMixin, CallMixin):
             if val is before:
                 continue
             r = z3.Int(fresh_name('r'))
-            allowed = self.frame_cond(key, mods, r, st.old)
+            allowed = self.frame_cond(key, mods, r, wstate)
             st.assume(z3.ForAll([r], z3.Implies(z3.And(r > 0, r <= a_pre, z3.Not(allowed)),
                                                 z3.Select(val, r) == z3.Select(before, r))))
 
-    def loop_frame_check(self, st, head, lc, ordn, where, a_pre):
+    def loop_frame_check(self, st, head, lc, ordn, where, a_pre, pre=None):
         mods = lc.modifies if lc.modifies is not None else self.c.modifies
+        wstate = pre if (lc.modifies is not None and pre is not None) else st.old
         for key, val in st.heap.items():
             if key[0] in ('alloc', 'g'):
                 continue
@@ -918,7 +922,7 @@ class Exec(ExprMixin, CallMixin):
             if val is before:
                 continue
             r = z3.Int(fresh_name('r'))
-            allowed = self.frame_cond(key, mods, r, st.old)
+            allowed = self.frame_cond(key, mods, r, wstate)
             goal = z3.ForAll([r], z3.Implies(z3.And(r > 0, r <= a_pre, z3.Not(allowed)),
                                              nsel(val, r) == nsel(before, r)))
             o = self.eng.obl('loop-frame', 'loop%d:%s' % (ordn, '_'.join(str(x) for x in self.eng.hkey(key)[:2])),
@@ -929,7 +933,22 @@ class Exec(ExprMixin, CallMixin):
         """Generic loop-cut.  setup(st) -> env for invariants at entry; cond_fn(st) -> (z3 bool, body_prep);
         step_fn(st) advances hidden iteration state at the back edge."""
         out = Out()
-        env0 = setup(st)
+        inner_env = setup(st)
+        outer = list(self.loop_envs)
+
+        def env0(cur, _inner=inner_env, _outer=outer):
+            e = {}
+            for f in _outer:
+                e.update(f(cur))
+            e.update(_inner(cur))
+            return e
+        self.loop_envs.append(inner_env)
+        try:
+            return self._run_loop_body(node, st, env0, cond_fn, step_fn, ordn, lc, out)
+        finally:
+            self.loop_envs.pop()
+
+    def _run_loop_body(self, node, st, env0, cond_fn, step_fn, ordn, lc, out):
         self.take_exits(out)
         # 1. invariant holds on entry
         self.check_inv(lc, st, st, 'inv-init', 'loop%d' % ordn, env0(st), 'entry')
@@ -971,7 +990,7 @@ class Exec(ExprMixin, CallMixin):
             self.take_exits(out)
             self.use_lemmas(lc.at_end, s, env0(s), 'loop%d-end' % ordn)
             self.check_inv(lc, s, head_snapshot, 'inv-keep', 'loop%d' % ordn, env0(s), how)
-            self.loop_frame_check(s, head_snapshot, lc, ordn, how, pre.h(('alloc',)))
+            self.loop_frame_check(s, head_snapshot, lc, ordn, how, pre.h(('alloc',)), pre)
             if meas0 is not None:
                 m1 = self.spec_value(lc.decreases, s, env0(s)).z
                 o = self.eng.obl('decreases', 'loop%d' % ordn, lc.decreases)
@@ -1173,18 +1192,24 @@ class Exec(ExprMixin, CallMixin):
             arr = z3.Const(fresh_name('dvs'), z3.ArraySort(z3.IntSort(), svt.sort()))
             st.assume(z3.ForAll([i], z3.Implies(z3.And(0 <= i, i < n), z3.Select(arr, i) == z3.Select(val, z3.Select(ks, i))),
                                 patterns=[z3.Select(arr, i)]))
+            st.assume(z3.ForAll([k], z3.Implies(z3.Select(has, k), z3.Select(arr, pos(k)) == z3.Select(val, k)),
+                                patterns=[pos(k)]))
             return mk_seq(vt, n, arr)
         tt = T.Tuple([kt, vt])
         arr = z3.Const(fresh_name('dis'), z3.ArraySort(z3.IntSort(), tt.sort()))
         st.assume(z3.ForAll([i], z3.Implies(z3.And(0 <= i, i < n),
                                             z3.Select(arr, i) == tt.mk([z3.Select(ks, i), z3.Select(val, z3.Select(ks, i))])),
                             patterns=[z3.Select(arr, i)]))
+        st.assume(z3.ForAll([k], z3.Implies(z3.Select(has, k), z3.Select(arr, pos(k)) == tt.mk([k, z3.Select(val, k)])),
+                            patterns=[pos(k)]))
         return mk_seq(tt, n, arr)
 
     def run_from_loop(self, st, ordn):
         """Segment verification: start at the entry of loop `ordn` with contract.start_assume as precondition."""
         node = self.loops[ordn]
         for nm, ts in self.c.locals.items():
+            if nm == '[]':
+                continue
             t = self.eng.ptype(ts)
             v = SV(t, t.fresh('l_' + nm))
             st.locals[nm] = v
